@@ -2,7 +2,7 @@
 from vf.gen import sccprog as G
 
 ID = 'C15'
-RULE = ('SCC streams in pop-on, roll-up and paint-on mode (and mixtures) whose rows carry 1-40 plain '
+RULE = ('SCC streams in pop-on, roll-up and paint-on mode (and mixtures) whose rows carry 0-40 plain '
         'characters with the lengths concentrated on 31/32/33/40; pop-on and paint-on captions use adjacent '
         'rows (several lines in one caption) and non-adjacent rows (several captions sharing a start), so '
         'that the long line is first / middle / last of a same-start group. Oracle from the transmitted '
@@ -12,9 +12,9 @@ RULE = ('SCC streams in pop-on, roll-up and paint-on mode (and mixtures) whose r
 ANCHORS = ['pycaption.scc:SCCReader.read']
 REQUIRE = {'streams_with_long_row': 50, 'streams_without_long_row': 50, 'long_rows_in_same_start_group': 20,
            'errors_checked': 50, 'returned_lines_checked': 200, 'mode_roll': 20, 'mode_paint': 20,
-           'mode_pop': 20, 'two_long_rows_same_start': 5}
+           'mode_pop': 20, 'two_long_rows_same_start': 5, 'streams_with_empty_row': 30}
 
-LENGTHS = [1, 5, 12, 20, 28, 31, 32, 32, 32, 33, 33, 34, 40]
+LENGTHS = [0, 0, 1, 5, 12, 20, 28, 31, 32, 32, 32, 33, 33, 34, 40]
 
 
 def cases(ctx):
@@ -22,7 +22,7 @@ def cases(ctx):
     for _ in range(ctx.budget(9000, 300000)):
         modes = rng.choice([['pop'], ['pop'], ['roll'], ['paint'], ['roll', 'pop'], ['paint', 'pop'],
                             ['pop', 'pop'], ['roll', 'paint']])
-        lengths = LENGTHS if rng.random() < 0.7 else [3, 10, 20, 30, 31, 32]
+        lengths = LENGTHS if rng.random() < 0.7 else [0, 3, 10, 20, 30, 31, 32]
         yield {'stream': G.gen_stream(rng, modes=modes, lengths=lengths, tagged=True)}
 
 
@@ -48,13 +48,15 @@ def nontrivial(case):
 
 def check(case, ctx):
     from pycaption import SCCReader
-    from pycaption.exceptions import CaptionLineLengthError
+    from pycaption.exceptions import CaptionLineLengthError, CaptionReadNoCaptions
     st = case['stream']
     lines, rows = G.encode_stream(st)
     doc = G.scc_doc(lines)
     for seg in st['segments']:
         ctx.count('mode_' + seg['mode'])
     long_rows = [r for r in rows if len(r) > 32]
+    if any(len(r) == 0 for r in rows):
+        ctx.count('streams_with_empty_row')
     for g in _groups(st):
         if len(g) >= 2 and any(n > 32 for n in g):
             ctx.count('long_rows_in_same_start_group')
@@ -74,6 +76,10 @@ def check(case, ctx):
             return [{'what': 'line-length error does not name every offending line', 'missing': missing,
                      'message': msg[:600], 'doc': doc}]
         return []
+    except CaptionReadNoCaptions as e:
+        if all(len(r) == 0 for r in rows):
+            return []
+        return [{'what': 'no captions read although text was transmitted', 'doc': doc}]
     except Exception as e:
         return [{'what': 'SCCReader raised something else', 'error': repr(e)[:300], 'doc': doc}]
     fails = []
